@@ -1,6 +1,7 @@
 import PgBifrost.Proofs.ClientC07
 import PgBifrost.Proofs.ClientTimer
 import PgBifrost.Gen.ClientSrc
+import PgBifrost.Gen.ConnWrapSrc
 /-!
 # C18 — standby status updates keep flowing  (partial: timers are modelled)
 
@@ -83,5 +84,20 @@ theorem keepalive_as_in_source (v : Variant) (s : State) (reply : Bool) (w e : N
   · simp [Id.run, pure]
   · simp only [Id.run, pure, bind]
     by_cases h1 : s.hbDelta + e < 100000000 <;> by_cases h2 : 5 < s.hbCount + 1 <;> simp [h1, h2]
+
+/-- The connection wrapper as written: every method passes its call straight to pgx / pglogrepl with the arguments it
+was given, and `SendStandbyStatus` flushes the update to the wire before it returns (pgx v5 only queues writes until the
+next read: the repair of F10) - with no condition on the position or on earlier updates. -/
+theorem conn_wrapper_as_in_source :
+    PgBifrost.Gen.ConnWrapSrc.methods = [
+      ("IsClosed", ["return c.conn.IsClosed()"]),
+      ("SendStandbyStatus", ["if err := pglogrepl.SendStandbyStatusUpdate(ctx, c.conn, status); err != nil { return err }", "if f, ok := c.conn.Conn().(interface{ Flush() error }); ok { return f.Flush() }", "return nil"]),
+      ("ReceiveMessage", ["return c.conn.ReceiveMessage(ctx)"]),
+      ("StartReplication", ["return pglogrepl.StartReplication(ctx, c.conn, slotName, startLSN, options)"]),
+      ("Close", ["return c.conn.Close(ctx)"]),
+      ("CreateReplicationSlot", ["return pglogrepl.CreateReplicationSlot(ctx, c.conn, slotName, outputPlugin, options)"]),
+      ("IdentifySystem", ["return pglogrepl.IdentifySystem(ctx, c.conn)"]),
+      ("DropReplicationSlot", ["return pglogrepl.DropReplicationSlot(ctx, c.conn, slotName, options)"])
+    ] := rfl
 
 end PgBifrost.Props.C18
